@@ -42,6 +42,26 @@ TECH = "Lean 4 theorems over a hand-written executable model; tie = decision exp
 NOT_APPLICABLE = {}
 
 PROPS = {
+    "C16": dict(
+        level="proof", engines=[], labels=["C16"],
+        text="Theorems (Props/C16.lean) over the decision model Gen (validateOptions, chkFns, template choices), each proved for all 1 024 option combinations: an accepted method gets exactly one client stub; "
+             "accepted = documented (both directions); the documented illegal combinations, two call types on one method and per_node_arg on an ordered RPC are rejected; the stub is the one of the declared call type; "
+             "quorum-function entry and per-node wiring follow the declaration; services with distinct method names get distinct stub declarations. Tie (Tie/C16.lean): the table obtained on every run by executing "
+             "the real plugin, built from the tree, on all 1 024 single-method services (3+ runs each) is proved row by row (decide +kernel) to equal the model: outcome / diagnostic class, byte-identical output, "
+             "stub list, no duplicate declaration, handler shape, QF entry, per-node wiring, method strings. Behavioural: every accepted row and N random multi-method services are compiled together with protoc-gen-go output.",
+        note="Trusted: Lean kernel; gentool gr (descriptor synthesis, go/ast extraction of the stub facts, normaliser); 'compiles' is tested with go build, not proved; the generator's behaviour on services is the per-method "
+             "behaviour (templates range over methods) plus name clashes with the static code, which are known findings.",
+        technique="Lean 4 theorems over a hand-written decision model; tie = exhaustive table regenerated by executing the real plugin over the whole option lattice, compared with the model by kernel evaluation; go build of emitted packages",
+    ),
+    "C17": dict(
+        level="translation_validation", engines=[], labels=["C17"],
+        text="Currency: every committed *_gorums.pb.go (tests/*, benchmark, examples, the nine dev/zorums_* files) and the bundled template_static.go is regenerated with the plugin built from the working tree and compared "
+             "after normalisation; Lean re-checks that every file is equal, that none lacks a descriptor and that no binding differs (Tie/C17.lean). Binding: theorems (Props/C17.lean) that the generator model emits the stub "
+             "of the declared call type with matching handler shape, QF entry and per-node wiring, tied to the real plugin by C16's kernel-checked table (which includes the method-name strings); the bindings of all 62 "
+             "methods of the repository's services are extracted from the regenerated code and compared with the descriptors.",
+        note="Trusted: gentool gr's normaliser (comments dropped, go/format) and binding extractor; descriptors are read from the committed *.pb.go (there is no protoc: an edit to a .proto text file alone is not seen); Lean kernel.",
+        technique="regenerate-and-compare of all committed generated files (translation validation) + Lean 4 binding theorems over the generator model tied by the exhaustive plugin table",
+    ),
     "C03": dict(
         level="proof", engines=[eng("order", 300, 6000, timeout=900), eng("srv", 300, 6000, timeout=900)], labels=["C03", "C04"],
         text="Theorems (Props/C03.lean, composing Chan and SrvConn): what is written to a node's stream is, in order, a subsequence of what was handed to its send queue, each request at most once; "
